@@ -74,7 +74,7 @@ pub fn build(quick: bool) -> Check {
     let alpha = alphabet();
     let prefix = vec![Action::Prepare { id: 1, n: 2, ok: true }, Action::Prepare { id: 2, n: 2, ok: true }];
     let mut families: Vec<Box<dyn Family>> = Vec::new();
-    for d in 1..=(if quick { 4 } else { 5 }) {
+    for d in 1..=(if quick { 4 } else { 6 }) {
         families.push(Box::new(Tree { label: "long-data".into(), prefix: prefix.clone(), alpha: alpha.clone(), depth: d }));
     }
     families.push(Box::new(Bfs {
@@ -86,15 +86,16 @@ pub fn build(quick: bool) -> Check {
         max_states: if quick { 3000 } else { 300_000 },
     }));
     families.push(Box::new(BigChunk));
+    families.push(Box::new(Histories { label: "long-data".into(), hists: scale_long_data() }));
     Check {
         id: "C17",
         level: "model_checking",
-        rule: format!("two prepared statements of 2 parameters; histories over {} actions: LONG_DATA(id 1|2, parameter 0|1|out of range, chunk \"\"|\"xy\"|\"z\"), EXECUTE(bind LONG | VAR_STRING | reuse; first parameter NULL), CLOSE, re-PREPARE; the client omits inline bytes for parameters with pending long data. Full tree to depth {} plus BFS over model states (pending data capped at 4 bytes per parameter) with two witnesses; plus a chunk of 2*(2^24-1)+5 bytes. Oracle: the parameter is the in-order concatenation for that statement and parameter, the other parameters keep their inline values, delivery happens to exactly one execution and never to another statement.", alpha.len(), if quick {4} else {5}),
+        rule: format!("two prepared statements of 2 parameters; histories over {} actions: LONG_DATA(id 1|2, parameter 0|1|out of range, chunk \"\"|\"xy\"|\"z\"), EXECUTE(bind LONG | VAR_STRING | reuse; first parameter NULL), CLOSE, re-PREPARE; the client omits inline bytes for parameters with pending long data. Full tree to depth {} plus BFS over model states (pending data capped at 4 bytes per parameter) with two witnesses; plus a chunk of 2*(2^24-1)+5 bytes; plus long data followed by 8..600 inline executions of the same statement. Oracle: the parameter is the in-order concatenation for that statement and parameter, the other parameters keep their inline values, delivery happens to exactly one execution and never to another statement.", alpha.len(), if quick {4} else {6}),
         assumptions: vec!["an empty chunk still marks the parameter as supplied by long data (MySQL semantics: the value is the empty string)".into()],
-        bounds: json!({"tree_depth": if quick {4} else {5}, "alphabet": alpha.len()}),
+        bounds: json!({"tree_depth": if quick {4} else {6}, "alphabet": alpha.len()}),
         exhaustive: true,
         caps_hit: vec![],
         families,
-        required: vec!["execute_with_pending_long_data", "multi_packet_chunks", "bfs_states"],
+        required: vec!["execute_with_pending_long_data", "multi_packet_chunks", "bfs_states", "long_histories"],
     }
 }
